@@ -123,6 +123,33 @@ def check_program(ctx, line, sp, events, profile, stage):
                 except Exception as ex:
                     ctx.violation(dict(sig0, clause='call-raised', mode='aliased', exc=type(ex).__name__),
                                   dict(detail0, x=x_abs, exc=str(ex)[:200], aliased=True))
+    # --- the caller hands a VECTOR OPERAND of the expression (the v of v * A, A * v, A + v, ... - the very object) to the
+    #     expression as `out`: (v * A)(x, out=v) still has to hold v * A(x) for the v the expression was built with
+    if line['ran'] == 'V' and os.environ.get('VERIF_C04_OPERAND_OUT', '1') == '1' and not sp.big:
+        for x_abs, exp in list(zip(line['pts'], line['vals']))[:1]:
+            for which in (0, -1):
+                sp.arith = []
+                try:
+                    op2 = U.build(e, sp, None, matmul)
+                except Exception:
+                    break
+                cands = [v for v in sp.arith if v in op2.range]
+                if not cands or (which == -1 and len(cands) == 1):
+                    break
+                out = cands[which]
+                ctx.count([e, x_abs, profile, 'operand-out', which], nontriv)
+                try:
+                    r = op2(sp.point(line['dom'], x_abs), out=out)
+                    obs4, note4 = sp.project('V', out, D)
+                    if obs4 != exp:
+                        ctx.violation(dict(sig0, clause='value', mode='out-is-operand'),
+                                      dict(detail0, x=x_abs, observed=obs4, note=note4, operand_out=which))
+                    if r is not out:
+                        ctx.violation(dict(sig0, clause='in-place-does-not-return-out', mode='out-is-operand'),
+                                      dict(detail0, x=x_abs, operand_out=which))
+                except Exception as ex:
+                    ctx.violation(dict(sig0, clause='call-raised', mode='out-is-operand', exc=type(ex).__name__),
+                                  dict(detail0, x=x_abs, exc=str(ex)[:200], operand_out=which))
     # --- extension: expr.inverse (where ODL offers one) must invert expr; decided by TLC as Eval(prog, inverse(x)) = x
     if line['lin'] and line['dom'] == 'V' and line['ran'] == 'V' and not sp.big:
         try:
